@@ -31,12 +31,14 @@ func main() {
 		t3.Workload{JournalMode: "persist", PageSize: 1024, CacheSize: 8, Steps: 40, Seed: 14, ModeSwitch: true, Replica: true},
 		t3.Workload{JournalMode: "truncate", PageSize: 4096, CacheSize: 8, Steps: 40, Seed: 15, ModeSwitch: true, Replica: true},
 		t3.Workload{JournalMode: "wal", PageSize: 4096, CacheSize: 8, Steps: 40, Seed: 16, ModeSwitch: true, Replica: true})
+	ws = append(ws, t3.Workload{JournalMode: "delete", PageSize: 65536, CacheSize: 20, Seed: 21, LockPage: true},
+		t3.Workload{JournalMode: "wal", PageSize: 65536, CacheSize: 20, Seed: 22, LockPage: true, Replica: true})
 	only := os.Getenv("T3_ONLY")
 	for i, w := range ws {
 		if only != "" && only != fmt.Sprint(i) {
 			continue
 		}
-		r, hung := t3.RunIsolated(w, core.Scratch(fmt.Sprintf("t3-%d", i)), 120*time.Second)
+		r, hung := t3.RunIsolated(w, core.Scratch(fmt.Sprintf("t3-%d", i)), 600*time.Second)
 		fmt.Printf("%s: statements=%d commits=%d evals=%d skipped=%q fails=%d hung=%v\n", w, r.Statements, r.Commits, r.Evals, r.Skipped, len(r.Fails), hung)
 		for _, f := range r.Fails {
 			fmt.Printf("   %s %s %v\n", f.Monitor, f.Sig, f.Detail)
